@@ -346,10 +346,11 @@ class Interp:
             binds[p["name"]] = v
             return True
         if k == "lit":
-            return self._lit(p["e"]) == v and isinstance(v, bool) == isinstance(self._lit(p["e"]), bool)
+            lv = self._pat_bound(p["e"])
+            return lv == v and isinstance(v, bool) == isinstance(lv, bool)
         if k == "range":
-            lo = self._lit(p["lo"]) if p.get("lo") else None
-            hi = self._lit(p["hi"]) if p.get("hi") else None
+            lo = self._pat_bound(p["lo"]) if p.get("lo") else None
+            hi = self._pat_bound(p["hi"]) if p.get("hi") else None
             if isinstance(v, bool) or not isinstance(v, (int, float)):
                 return False
             if lo is not None and v < lo:
@@ -379,10 +380,20 @@ class Interp:
                 return self.match_pat(p["elems"][0], v[1], binds)
             raise Unsupported("tuple-struct pattern " + p["path"])
         if k == "path":
-            return self._path_value(p["p"], Frame()) == v
+            return self._path_value(p["p"], Frame(file=getattr(self, "_pat_file", None))) == v
         if k == "ref":
             return self.match_pat(p["pat"], v, binds)
         raise Unsupported("pattern " + k)
+
+    def _pat_bound(self, e):
+        """value of a literal pattern / range-pattern bound: a literal or a named constant (`0..CUBE_OFFSET`, `consts::LIMIT..=255`)"""
+        if e["k"] == "paren":
+            return self._pat_bound(e["e"])
+        if e["k"] == "un" and e["op"] == "-":
+            return -self._pat_bound(e["e"])
+        if e["k"] == "path":
+            return self._path_value(e["p"], Frame(file=getattr(self, "_pat_file", None)))
+        return self._lit(e)
 
     # ------------------------------------------------------------------ expressions
     def _lit(self, e):
@@ -591,6 +602,7 @@ class Interp:
         if c["k"] == "letcond":
             v = self.eval(c["e"], fr)
             b = {}
+            self._pat_file = fr.file
             if self.match_pat(c["pat"], v, b):
                 fr.vars.update(b)
                 return True
@@ -619,6 +631,7 @@ class Interp:
                 return self.match_value(e, v, fr)
             except _Return as r:
                 return r.v
+        self._pat_file = fr.file
         for arm in e["arms"]:
             b = {}
             if self.match_pat(arm["pat"], v, b):
